@@ -169,6 +169,9 @@ func (l LossItvls) CycleDurS() int {
 
 func (l LossItvls) StateAt(nowS int) lossState {
 	dur := l.CycleDurS()
+	if dur <= 0 {
+		return lossUnknown
+	}
 	rest := nowS % dur
 	for _, itvl := range l.Itvls {
 		rest -= itvl.durS
@@ -218,6 +221,9 @@ func CreateLossItvls(pattern string) (LossItvls, error) {
 			return LossItvls{}, fmt.Errorf("invalid loss pattern %q", pattern)
 		}
 		li.Itvls = append(li.Itvls, LossItvl{durS: dur, state: state})
+	}
+	if len(li.Itvls) == 0 {
+		return LossItvls{}, fmt.Errorf("empty loss pattern %q", pattern)
 	}
 	return li, nil
 }
